@@ -2,6 +2,7 @@ package main
 
 import (
 	"fmt"
+	"go/ast"
 	"go/token"
 	"go/types"
 	"sort"
@@ -91,13 +92,9 @@ func fieldsAssigned(fn *ssa.Function, isObj func(v ssa.Value) bool, st *types.St
 			delete(got, k)
 		}
 	}()
-	allInstrs(fn, func(in ssa.Instruction) {
-		s, ok := in.(*ssa.Store)
-		if !ok {
-			return
-		}
+	unconditional := func(b *ssa.BasicBlock) bool {
 		uncond := true
-		for _, ec := range controlling(s.Block()) {
+		for _, ec := range controlling(b) {
 			d := ec.String()
 			// a nil / ok test of the pooled object itself is not a condition on the reset …
 			if bo, ok := ec.Cond.(*ssa.BinOp); ok && isNilConst(bo.Y) && isObj(bo.X) {
@@ -118,11 +115,23 @@ func fieldsAssigned(fn *ssa.Function, isObj func(v ssa.Value) bool, st *types.St
 			// but a test of one of its fields (`if ctx.stackHeader == nil`) is: the old value survives on the other arm
 			uncond = false
 		}
-		if !uncond {
+		return uncond
+	}
+	allInstrs(fn, func(in ssa.Instruction) {
+		s, ok := in.(*ssa.Store)
+		if !ok {
+			return
+		}
+		// re-storing (part of) the object's own old state keeps it alive whether or not the store is conditional
+		if fa, ok := s.Addr.(*ssa.FieldAddr); ok && isObj(fa.X) && isObj(rootOf(s.Val)) && !truncatedToZero(s.Val) {
+			carried[fieldName(fa)] = true
+			return
+		}
+		if !unconditional(s.Block()) {
 			return
 		}
 		if fa, ok := s.Addr.(*ssa.FieldAddr); ok && isObj(fa.X) {
-			if isObj(rootOf(s.Val)) {
+			if isObj(rootOf(s.Val)) && !truncatedToZero(s.Val) {
 				carried[fieldName(fa)] = true // re-stores (part of) the object's own old state: not a reset
 				return
 			}
@@ -166,8 +175,42 @@ func fieldsAssigned(fn *ssa.Function, isObj func(v ssa.Value) bool, st *types.St
 			}
 		}
 	})
+	// any method called unconditionally on &obj.F that itself assigns every field of F's struct type re-initialises F
+	allInstrs(fn, func(in ssa.Instruction) {
+		call, ok := in.(*ssa.Call)
+		if !ok || len(call.Call.Args) == 0 || !unconditional(call.Block()) {
+			return
+		}
+		g := call.Call.StaticCallee()
+		if g == nil || len(g.Blocks) == 0 || g.Signature.Recv() == nil || g == fn || fieldsAssignedBusy[g] {
+			return
+		}
+		fa, ok := call.Call.Args[0].(*ssa.FieldAddr)
+		if !ok || !isObj(fa.X) {
+			return
+		}
+		pt, ok := fa.Type().(*types.Pointer)
+		if !ok {
+			return
+		}
+		ft, ok := pt.Elem().Underlying().(*types.Struct)
+		if !ok {
+			return
+		}
+		fieldsAssignedBusy[g] = true
+		sub := fieldsAssigned(g, func(v ssa.Value) bool { return len(g.Params) > 0 && v == ssa.Value(g.Params[0]) }, ft)
+		delete(fieldsAssignedBusy, g)
+		for i := 0; i < ft.NumFields(); i++ {
+			if !sub[ft.Field(i).Name()] {
+				return
+			}
+		}
+		got[fieldName(fa)] = true
+	})
 	return got
 }
+
+var fieldsAssignedBusy = map[*ssa.Function]bool{}
 
 func checkC15(c *Ctx) {
 	r, t := c.R, c.T
@@ -273,76 +316,10 @@ func checkC15(c *Ctx) {
 		}
 	}
 	r.Floor("RESET-COMPLETE", 28)
+	emptyProductions(c, "RESET-COMPLETE")
 
 	// (2) acquire/release pairing for tasks and parsers
-	getCtx, putCtx := t.Func(pRT, "GetContext"), t.Func(pRT, "PutContext")
-	newP := t.Func(pParser, "newParser")
-	for _, pp := range []string{pRT, pParser, pEngine, pFuncs} {
-		for _, f := range t.PkgFuncs(pp) {
-			isAcq := func(cc *ssa.CallCommon) bool {
-				return cc.StaticCallee() != nil && (cc.StaticCallee() == getCtx || cc.StaticCallee() == newP)
-			}
-			isRel := func(cc *ssa.CallCommon) bool {
-				if cc.StaticCallee() == putCtx && putCtx != nil {
-					return true
-				}
-				if f := cc.StaticCallee(); f != nil && f.Name() == "Put" && len(cc.Args) > 0 {
-					if g, ok := cc.Args[0].(*ssa.Global); ok && strings.HasSuffix(g.Name(), "Pool") {
-						return true
-					}
-				}
-				return false
-			}
-			uses := false
-			allInstrs(f, func(in ssa.Instruction) {
-				if ci, ok := in.(*ssa.Call); ok && isAcq(&ci.Call) {
-					uses = true
-				}
-			})
-			if !uses || f == getCtx {
-				continue
-			}
-			r.Fn(relName(f))
-			// every return (success or error) must have released
-			ts := &typestate{fn: f, nstate: 4, init: psFree}
-			ts.trans = func(in ssa.Instruction, st int) int {
-				switch x := in.(type) {
-				case *ssa.Defer:
-					if isRel(&x.Call) {
-						return st | 2
-					}
-				case *ssa.RunDefers:
-					if st&2 != 0 {
-						return psFree
-					}
-				case *ssa.Call:
-					if isAcq(&x.Call) {
-						return st | 1
-					}
-					if isRel(&x.Call) {
-						return st &^ 1
-					}
-				}
-				return st
-			}
-			before := ts.run()
-			ok := true
-			var where ssa.Instruction
-			allInstrs(f, func(in ssa.Instruction) {
-				if ret, isR := in.(*ssa.Return); isR && ret.Block() != f.Recover {
-					if before[in]&((1<<psHeld)|(1<<psHeldDefer)) != 0 {
-						ok = false
-						where = in
-					}
-				}
-			})
-			pos := t.Pos(f.Pos())
-			if where != nil {
-				pos = t.Pos(where.Pos())
-			}
-			r.Ob("ACQ-REL", relName(f)+" returns its pooled object", pos, ok, "an object taken from a pool must be put back (and thereby reset) on every return path, normally by a deferred release")
-		}
-	}
+	poolPairing(c, "ACQ-REL")
 	r.Floor("ACQ-REL", 4)
 
 	// (3) no hidden state
@@ -640,4 +617,301 @@ func sharedObjects(t *Tree, fns []*ssa.Function) (n int, bad []string) {
 	}
 	sort.Strings(bad)
 	return n, bad
+}
+
+// posCacheReinit (shared by C05 and C17): the parser object is pooled and its position cache answers every
+// line/column question of a parse; newParser must re-initialise the whole cache for the new text — a whole-struct
+// store, or a method that assigns every field — so that no answer depends on the text parsed before.
+func posCacheReinit(c *Ctx, rule string) {
+	r, t := c.R, c.T
+	np := t.Func(pParser, "newParser")
+	if np == nil {
+		r.Undecided(rule, "parser.newParser", "pkg/parser/parser.go", "unresolved anchor")
+		return
+	}
+	var pst *types.Struct
+	var pnamed types.Type
+	if tn := t.SSA[pParser].Type("parser"); tn != nil {
+		pnamed = tn.Type()
+		pst, _ = pnamed.Underlying().(*types.Struct)
+	}
+	if pst == nil {
+		r.Undecided(rule, "parser.parser", "pkg/parser/parser.go", "unresolved anchor")
+		return
+	}
+	isP := func(v ssa.Value) bool {
+		p, ok := v.Type().(*types.Pointer)
+		if !ok || !types.Identical(p.Elem(), pnamed) {
+			return false
+		}
+		switch v.(type) {
+		case *ssa.Parameter, *ssa.Extract, *ssa.TypeAssert, *ssa.Phi:
+			return true
+		}
+		return false
+	}
+	got := fieldsAssigned(np, isP, pst)
+	n := 0
+	for i := 0; i < pst.NumFields(); i++ {
+		f := pst.Field(i)
+		if !strings.HasSuffix(f.Type().String(), "token.PosCache") {
+			continue
+		}
+		n++
+		r.Ob(rule, "newParser re-initialises every field of the pooled parser's position cache "+f.Name(), t.Pos(np.Pos()), got[f.Name()],
+			"a whole-struct store or a method assigning every field of token.PosCache on every path — a field left over from the previous text makes line/column answers depend on what was parsed before")
+	}
+	r.FloorN("position-cache fields of the pooled parser", n, 1)
+}
+
+// truncatedToZero: v is x[:0] or append(x[:0], …): the buffer is reused but none of its old elements survive.
+func truncatedToZero(v ssa.Value) bool {
+	for depth := 0; depth < 4; depth++ {
+		switch x := v.(type) {
+		case *ssa.Slice:
+			if x.High == nil {
+				return false
+			}
+			k, ok := constInt(x.High)
+			return ok && k == 0
+		case *ssa.Call:
+			if b, ok := x.Call.Value.(*ssa.Builtin); ok && b.Name() == "append" && len(x.Call.Args) > 0 {
+				v = x.Call.Args[0]
+				continue
+			}
+			return false
+		default:
+			return false
+		}
+	}
+	return false
+}
+
+// emptyProductions: the goyacc driver keeps its value stack inside the parser object, which is pooled and never
+// wiped; before a reduction it preloads $$ with the stack slot just above the handle — for an empty right-hand side
+// that is a slot left over from an earlier (possibly unrelated) parse. An empty production of a typed nonterminal
+// must therefore assign $$ itself on every path; an untyped one has no value that could be read.
+func emptyProductions(c *Ctx, rule string) {
+	r := c.R
+	g := c.Gram()
+	if g == nil {
+		r.Undecided(rule, "grammar", "pkg/parser/gram.y", "grammar not loaded")
+		return
+	}
+	n := 0
+	for _, p := range g.Prods[1:] {
+		if len(p.RHS) != 0 {
+			continue
+		}
+		n++
+		tag := g.TypeOf[p.LHS]
+		key := fmt.Sprintf("empty production %d `%s:` yields a defined value", p.Num, p.LHS)
+		pos := fmt.Sprintf("pkg/parser/gram.y:%d", p.Line)
+		if tag == "" {
+			r.Ob(rule, key, pos, true, "the nonterminal is untyped: no action can read its value")
+			continue
+		}
+		assigns := false
+		if ai := g.Actions[p.Num]; ai != nil && ai.Body != nil {
+			var stmts []ast.Stmt
+			for _, st := range ai.Body.Body {
+				if bl, ok := st.(*ast.BlockStmt); ok { // goyacc wraps the action in a block
+					stmts = append(stmts, bl.List...)
+				} else {
+					stmts = append(stmts, st)
+				}
+			}
+			for _, st := range stmts {
+				if as, ok := st.(*ast.AssignStmt); ok && len(as.Lhs) == 1 {
+					if sel, ok := as.Lhs[0].(*ast.SelectorExpr); ok {
+						if id, ok := sel.X.(*ast.Ident); ok && id.Name == "yyVAL" && sel.Sel.Name == tag {
+							assigns = true
+						}
+					}
+				}
+			}
+		}
+		r.Ob(rule, key, pos, assigns, "typed ("+tag+") nonterminal with an empty right-hand side: without a top-level `$$ = …` its value is whatever an earlier parse left in the pooled parser's value stack")
+	}
+	r.FloorN("empty productions examined", n, 1)
+}
+
+// poolPairing (shared by C15 and C16): every function that takes a task or a parser from its pool gives it back on
+// every return path — and gives it back once. A call that hands the object to a function which releases that
+// parameter on all of its own paths counts as the release (a release wrapper); a second release of the same object
+// (a deferred PutContext next to such a wrapper) puts one pointer into the pool twice, so two later Get calls —
+// possibly on two goroutines — receive the same object.
+func poolPairing(c *Ctx, rule string) {
+	r, t := c.R, c.T
+	getCtx, putCtx := t.Func(pRT, "GetContext"), t.Func(pRT, "PutContext")
+	newP := t.Func(pParser, "newParser")
+	isAcq := func(cc *ssa.CallCommon) bool {
+		return cc.StaticCallee() != nil && (cc.StaticCallee() == getCtx || cc.StaticCallee() == newP)
+	}
+	directRel := func(cc *ssa.CallCommon) bool {
+		if cc.StaticCallee() == putCtx && putCtx != nil {
+			return true
+		}
+		if f := cc.StaticCallee(); f != nil && f.Name() == "Put" && len(cc.Args) > 0 {
+			if g, ok := cc.Args[0].(*ssa.Global); ok && strings.HasSuffix(g.Name(), "Pool") {
+				return true
+			}
+		}
+		return false
+	}
+	// relObj: the object a direct release call gives back
+	relObj := func(cc *ssa.CallCommon) ssa.Value {
+		if cc.StaticCallee() == putCtx {
+			return cc.Args[0]
+		}
+		if len(cc.Args) >= 2 {
+			v := cc.Args[len(cc.Args)-1]
+			if mi, ok := v.(*ssa.MakeInterface); ok {
+				return mi.X
+			}
+			return v
+		}
+		return nil
+	}
+	// release wrappers: g releases its parameter #k on every return path (one level, no recursion)
+	wrapper := map[*ssa.Function]int{}
+	for _, pp := range []string{pRT, pParser, pEngine, pFuncs} {
+		for _, g := range t.PkgFuncs(pp) {
+			if g == putCtx || len(g.Blocks) == 0 {
+				continue
+			}
+			for k, prm := range g.Params {
+				if _, isPtr := prm.Type().(*types.Pointer); !isPtr {
+					continue
+				}
+				ts := &typestate{fn: g, nstate: 4, init: 0}
+				ts.trans = func(in ssa.Instruction, st int) int {
+					switch x := in.(type) {
+					case *ssa.Defer:
+						if directRel(&x.Call) && relObj(&x.Call) == ssa.Value(prm) {
+							return st | 2
+						}
+					case *ssa.RunDefers:
+						if st&2 != 0 {
+							return st | 1
+						}
+					case *ssa.Call:
+						if directRel(&x.Call) && relObj(&x.Call) == ssa.Value(prm) {
+							return st | 1
+						}
+					}
+					return st
+				}
+				before := ts.run()
+				all, n := true, 0
+				allInstrs(g, func(in ssa.Instruction) {
+					if ret, isR := in.(*ssa.Return); isR && ret.Block() != g.Recover {
+						n++
+						for st := 0; st < 4; st++ {
+							if before[in]&(1<<uint(st)) != 0 && st&1 == 0 {
+								all = false
+							}
+						}
+					}
+				})
+				if all && n > 0 {
+					wrapper[g] = k
+				}
+			}
+		}
+	}
+	wrapNames := []string{}
+	for g := range wrapper {
+		wrapNames = append(wrapNames, relName(g))
+	}
+	sort.Strings(wrapNames)
+	r.Extra["release_wrappers"] = wrapNames
+	const (
+		held     = 1
+		deferred = 2
+		released = 4
+		twice    = 8
+	)
+	for _, pp := range []string{pRT, pParser, pEngine, pFuncs} {
+		for _, f := range t.PkgFuncs(pp) {
+			var obj ssa.Value
+			allInstrs(f, func(in ssa.Instruction) {
+				if ci, ok := in.(*ssa.Call); ok && isAcq(&ci.Call) {
+					obj = ci
+				}
+			})
+			if obj == nil || f == getCtx {
+				continue
+			}
+			r.Fn(relName(f))
+			same := func(v ssa.Value) bool {
+				if v == nil {
+					return false
+				}
+				return v == obj || rootOf(v) == obj
+			}
+			isRel := func(cc *ssa.CallCommon) bool {
+				if directRel(cc) {
+					return relObj(cc) == nil || same(relObj(cc))
+				}
+				if g := cc.StaticCallee(); g != nil {
+					if k, ok := wrapper[g]; ok && k < len(cc.Args) && same(cc.Args[k]) {
+						return true
+					}
+				}
+				return false
+			}
+			release := func(st int) int {
+				if st&released != 0 {
+					return st | twice
+				}
+				return (st &^ held) | released
+			}
+			ts := &typestate{fn: f, nstate: 16, init: 0}
+			ts.trans = func(in ssa.Instruction, st int) int {
+				switch x := in.(type) {
+				case *ssa.Defer:
+					if isRel(&x.Call) {
+						return st | deferred
+					}
+				case *ssa.RunDefers:
+					if st&deferred != 0 {
+						return release(st)
+					}
+				case *ssa.Call:
+					if isAcq(&x.Call) {
+						return (st | held) &^ released
+					}
+					if isRel(&x.Call) {
+						return release(st)
+					}
+				}
+				return st
+			}
+			before := ts.run()
+			ok, once := true, true
+			var where ssa.Instruction
+			allInstrs(f, func(in ssa.Instruction) {
+				if ret, isR := in.(*ssa.Return); isR && ret.Block() != f.Recover {
+					for st := 0; st < 16; st++ {
+						if before[in]&(1<<uint(st)) == 0 {
+							continue
+						}
+						if st&held != 0 {
+							ok, where = false, in
+						}
+						if st&twice != 0 {
+							once, where = false, in
+						}
+					}
+				}
+			})
+			pos := t.Pos(f.Pos())
+			if where != nil {
+				pos = t.Pos(where.Pos())
+			}
+			r.Ob(rule, relName(f)+" returns its pooled object", pos, ok, "an object taken from a pool must be put back (and thereby reset) on every return path, normally by a deferred release or by a callee that releases it on all of its paths")
+			r.Ob(rule, relName(f)+" returns its pooled object once", pos, once, "an object released twice (e.g. by a callee that releases its parameter and again by the caller's deferred release) sits in the pool twice: two later acquisitions, possibly on two goroutines, get the same object")
+		}
+	}
 }
